@@ -1,5 +1,6 @@
 import TcVerif.Proofs.RebaseSymm
 import TcVerif.Props.C01
+import TcVerif.Proofs.SrcTransform
 /-!
 # C03 — No lost updates; documented conflict winners, independent of sync order
 
@@ -158,5 +159,11 @@ theorem C03_dropped_only_by_rule (S : DB) (a b : SyncOp) (ha : valid S a) (hb : 
                 · exact absurd h hl
                 · simp [later, h]
       · cases hd
+
+/-- the source's `SyncOp::transform` (regenerated from `src/server/op.rs` on every run) does not care
+    which operation is called "server" and which "local": the winner cannot depend on who syncs first -/
+theorem C03_source_transform_symm (a b : SyncOp) :
+    Src.transform b a = ((Src.transform a b).2, (Src.transform a b).1) := by
+  rw [src_transform_eq, src_transform_eq]; exact transform_symm a b
 
 end Tc
